@@ -22,7 +22,7 @@ func init() {
 			"scheduling points are the synchronisation operations of the repository code (WaitGroup, Mutex, sync.Map, go statements) plus the closers' own yield points; plain memory accesses between them are covered by the race detector, not by interleaving",
 			"weak-memory behaviours below tsan's happens-before model are not covered",
 		},
-		Parts: []Part{{Name: "close", Race: true, Verbose: true, Run: c14Run, QuickS: 120, ThoroughS: 1500}},
+		Parts: []Part{{Name: "close", Race: true, Verbose: true, Run: c14Run, QuickS: 240, ThoroughS: 1500}},
 	})
 }
 
@@ -89,6 +89,8 @@ type c14Case struct {
 	Slow   int   `json:"slow_closer"` // -1 none
 	Wired  bool  `json:"wired_by_real_start,omitempty"`
 	Both   bool  `json:"closers_are_runners_too,omitempty"` // wired closers also implement ApplicationRunner
+	AppDep int   `json:"closers_depend_on_app,omitempty"`   // wired closers hold the App itself: 1 directly, 2 through another component
+	Late   bool  `json:"named_after_the_app,omitempty"`     // their names sort after the App's own component name (created after it)
 	Zero   int   `json:"zero_size_closers,omitempty"`       // mask: stateless closers of field-less types (one shared address)
 	Bound  int   `json:"preemption_bound"`
 	Script []int `json:"schedule,omitempty"`
@@ -128,6 +130,17 @@ func c14Gen(c *core.Ctx) func(yield func(c14Case) bool) {
 			}
 			if n >= 1 && !yield(c14Case{N: n, Fail: 0, Steps: 0, Slow: -1, Wired: true, Both: true, Bound: bound}) {
 				return
+			}
+			// closers that depend on the App itself (they sit on a cycle with the App's own slice of
+			// closers), created before or after it
+			for dep := 1; dep <= 2 && n >= 1 && n <= 2; dep++ {
+				for _, late := range []bool{false, true} {
+					for _, both := range []bool{false, true} {
+						if !yield(c14Case{N: n, Fail: 0, Steps: 0, Slow: -1, Wired: true, Both: both, AppDep: dep, Late: late, Bound: bound}) {
+							return
+						}
+					}
+				}
 			}
 		}
 		for z := 3; z < 8; z++ { // two or three stateless closers next to 0-1 ordinary ones
@@ -183,11 +196,27 @@ func c14Run(c *core.Ctx) {
 			// the closers are found and wired by a real (free-running) start
 			var anys []any
 			for _, k := range closers {
-				if cs.Both {
-					anys = append(anys, &c14RunCloser{c14Named{c14Closer: k, name: fmt.Sprintf("closer%d", k.idx)}})
-				} else {
-					anys = append(anys, &c14Named{c14Closer: k, name: fmt.Sprintf("closer%d", k.idx)})
+				nm := c14Named{c14Closer: k, name: fmt.Sprintf("closer%d", k.idx)}
+				if cs.Late {
+					nm.name = "z" + nm.name
 				}
+				switch {
+				case cs.AppDep == 1 && cs.Both:
+					anys = append(anys, &c14AppRunCloser{c14AppCloser{c14Named: nm}})
+				case cs.AppDep == 1:
+					anys = append(anys, &c14AppCloser{c14Named: nm})
+				case cs.AppDep == 2 && cs.Both:
+					anys = append(anys, &c14ViaRunCloser{c14ViaCloser{c14Named: nm}})
+				case cs.AppDep == 2:
+					anys = append(anys, &c14ViaCloser{c14Named: nm})
+				case cs.Both:
+					anys = append(anys, &c14RunCloser{nm})
+				default:
+					anys = append(anys, &nm)
+				}
+			}
+			if cs.AppDep == 2 {
+				anys = append(anys, &c14Helper{})
 			}
 			a = app.NewApp()
 			if err := a.Run(app.SetComponents(anys...)); err != nil || len(a.CloserComponents) != cs.N {
@@ -212,7 +241,7 @@ func c14Run(c *core.Ctx) {
 			cc := cs
 			cc.Script = e.Script
 			key := func(kind string) string {
-				return "C14/" + kind + "/" + core.Hash(cs.N, cs.Fail, cs.Steps, cs.Slow, cs.Wired)
+				return "C14/" + kind + "/" + core.Hash(cs.N, cs.Fail, cs.Steps, cs.Slow, cs.Wired, cs.AppDep, cs.Late)
 			}
 			switch {
 			case e.Deadlock:
@@ -289,6 +318,29 @@ func c14ZReset() { scen.ZLog = nil }
 
 //go:norace
 func c14ZSnapshot() []string { return append([]string{}, scen.ZLog...) }
+
+// closers that hold the App itself, directly or through a helper component
+type c14AppCloser struct {
+	c14Named
+	A *app.App `wire:""`
+}
+type c14AppRunCloser struct{ c14AppCloser }
+
+func (r *c14AppRunCloser) Run() error { return nil }
+
+type c14Helper struct {
+	A *app.App `wire:""`
+}
+
+func (*c14Helper) Naming() string { return "mhelper" }
+
+type c14ViaCloser struct {
+	c14Named
+	H *c14Helper `wire:""`
+}
+type c14ViaRunCloser struct{ c14ViaCloser }
+
+func (r *c14ViaRunCloser) Run() error { return nil }
 
 // c14RunCloser is a closer that is an application runner as well (a server that is started and stopped).
 type c14RunCloser struct{ c14Named }
